@@ -1583,3 +1583,27 @@ package larking
 //@ func (*streamWS).SetTrailer serves C14 partial ghost post
 //@   requires s != nil
 //@   ensures [trailer-metadata-is-copied-when-it-is-set C14] at every return md != nil ==> s.trailer != md
+
+// ---------------------------------------------------------------------------
+// web.go: gRPC-web is served by the gRPC entry on the caller's own request (its
+// context carries the client's cancellation and deadline, C15; its body and headers
+// are the call's, C06) through the framing writer, and the trailer frame is flushed
+// exactly once after the call.
+//@ func (*Mux).serveGRPCWeb serves C06 C15 C05 partial ghost count post
+//@   requires m != nil && r != nil
+//@   count served `m.serveGRPC(`
+//@   count flushed `ww.flushWithTrailer(`
+//@   assert atcall `m.serveGRPC(` [grpc-web-is-served-on-the-callers-own-request C15 C06] arg2 == r
+//@   assert atcall `m.serveGRPC(` [grpc-web-replies-go-through-the-framing-writer C06 C05] pay(arg1) == ww
+//@   assert atcall `newWebWriter(` [the-framing-writer-wraps-the-callers-response C06] arg0 == w && arg1 == typ && arg2 == enc
+//@   ensures [the-trailer-frame-is-flushed-once-after-the-call C06 C05] at every return flushed == served
+// The first body byte sends the headers (what was sent as a header is not repeated in
+// the trailer frame); the bytes written are the caller's.
+//@ func (*webWriter).seeHeaders serves C06 C14 trusted partial post
+//@   requires w != nil
+//@   modifies F$webWriter.wroteHeader, F$webWriter.seenHeaders, M$
+//@   ensures [the-headers-are-marked-as-sent C06 C14] w.wroteHeader
+//@ func (*webWriter).Write serves C06 C14 partial ghost
+//@   requires w != nil
+//@   assert atcall `w.resp.Write(` [headers-are-fixed-before-the-first-body-byte C06 C14] w.wroteHeader
+//@   assert atcall `w.resp.Write(` [the-callers-bytes-are-written C06] same(arg0, b)
